@@ -245,7 +245,9 @@ let failat_tok (t : string) : n option =
   let k = int_tok t in
   (* k >= 1_000_000 encodes a writer that fails ONLY at call k - 1_000_000; the model's run is the same:
      nothing is written after the first failure (theorem C19_io_error_needs_fault) *)
-  if k < -1 then raise (Bad_case "failat") else if k < 0 then None
+  (* k <= -2 encodes a writer that accepts at most -k-1 bytes per call and never fails: invisible to a caller
+     that uses write_all, so the model's run is the fault-free one *)
+  if k < 0 then None
   else if k >= 1_000_000 then Some (n_of_int (k - 1_000_000)) else Some (n_of_int k)
 
 let parse_ft (t : string) : (n * n list) list =
